@@ -182,8 +182,55 @@ func fixtures() []*eraFix {
 			}
 		}
 	}
+	for _, e := range list {
+		addParamUpdateTx(e)
+	}
 	fixturesCache = list
 	return list
+}
+
+// addParamUpdateTx appends a transaction (and body) carrying tag-30 rationals in typed
+// protocol-parameter positions: a Shelley-style update (body key 6) for Shelley..Babbage, a
+// parameter-change governance proposal (body key 20) for Conway / Dijkstra.
+func addParamUpdateTx(e *eraFix) {
+	if e.blkType < 2 || len(e.bodies) == 0 {
+		return
+	}
+	root, err := space.Parse(e.bodies[0])
+	if err != nil || !root.IsMap() || root.Form == space.FormIndef {
+		return
+	}
+	half := func() *space.Node { return Tag(30, A(U(1), U(2))) }
+	params := M(U(9), half(), U(10), Tag(30, A(U(3), U(1000))), U(11), Tag(30, A(U(1), U(5))))
+	c := root.Clone()
+	if e.blkType <= 6 {
+		if c.MapGetUint(6) != nil {
+			return
+		}
+		c.Items = append(c.Items, U(6), A(M(B(hash28), params), U(300)))
+	} else {
+		if c.MapGetUint(20) != nil {
+			return
+		}
+		reward := append([]byte{0xe1}, hash28...)
+		prop := A(U(1000000), B(reward), A(U(0), space.Null(), params, space.Null()), A(T("https://example.invalid/a"), B(hash32)))
+		c.Items = append(c.Items, U(20), A(prop))
+	}
+	body := c.Encode()
+	var tx []byte
+	if e.blkType >= 5 {
+		tx = append(tx, 0x84)
+	} else {
+		tx = append(tx, 0x83)
+	}
+	tx = append(tx, body...)
+	tx = append(tx, 0xa0)
+	if e.blkType >= 5 {
+		tx = append(tx, 0xf5)
+	}
+	tx = append(tx, 0xf6)
+	e.txs = append(e.txs, tx)
+	e.bodies = append(e.bodies, body)
 }
 
 // shrinkEBB keeps the first two entries of the 648 kB epoch boundary block's key list so that
